@@ -84,21 +84,27 @@ fn anonymous_type_contains_itself<'a>(type_ref: &'a TypeRef, seen: &mut Vec<&'a 
 fn check_for_inheritance_cycle(interface_def: &Interface, diagnostics: &mut Diagnostics) {
     /// Searches the bases of `current` (depth first) for `target`. `path` holds the interfaces we're currently inside.
     /// Returns true if `target` was found, in which case `path` holds the chain of bases that leads back to it.
-    fn find_path_to<'a>(target: &str, current: &'a Interface, path: &mut Vec<&'a Interface>) -> bool {
+    fn find_path_to<'a>(
+        target: &str,
+        current: &'a Interface,
+        path: &mut Vec<&'a Interface>,
+        visited: &mut HashSet<String>,
+    ) -> bool {
         for base in current.base_interfaces() {
             let base_id = base.module_scoped_identifier();
             if base_id == target {
                 return true;
             }
 
-            // If we're already inside this base, it's part of a cycle that doesn't involve `target`.
-            // That cycle is reported for the interfaces that are on it; we skip it here to avoid looping forever.
-            if path.iter().any(|seen| seen.module_scoped_identifier() == base_id) {
+            // Every interface is only searched once: if `target` wasn't reachable from it the first time, it never will
+            // be. This also skips cycles that don't involve `target` (they're reported for the interfaces that are on
+            // them), and keeps the search linear with diamond-shaped inheritance.
+            if !visited.insert(base_id) {
                 continue;
             }
 
             path.push(base);
-            if find_path_to(target, base, path) {
+            if find_path_to(target, base, path, visited) {
                 return true;
             }
             path.pop();
@@ -108,7 +114,7 @@ fn check_for_inheritance_cycle(interface_def: &Interface, diagnostics: &mut Diag
 
     let type_id = interface_def.module_scoped_identifier();
     let mut path = vec![interface_def];
-    if find_path_to(&type_id, interface_def, &mut path) {
+    if find_path_to(&type_id, interface_def, &mut path, &mut HashSet::new()) {
         // Create a string showing the cycle that was detected (a string of the form "A -> B -> C -> A").
         let mut cycle = String::new();
         for link in &path {
